@@ -32,13 +32,40 @@ class StmtMixin:
     def join(self, results):
         """merge the states of all normally-continuing results into one (ite over heap / locals,
         guarded effects); other outcomes are kept as they are"""
-        normal = [r for r in results if r.ok and not r.st.undecided]
-        if len(normal) < 2 or not self.merging:
+        if not self.merging or len(results) < 2:
             return results
-        merged = self.merge_states([r.st for r in normal])
-        if merged is None:
-            return results
-        return [Res(merged)] + [r for r in results if not (r.ok and not r.st.undecided)]
+        groups, order = {}, []
+        for r in results:
+            if r.st.undecided or r.kind in ("undecided", "break", "continue"):
+                k = ("keep", id(r))
+            elif r.kind == "raise":
+                k = ("raise", r.exc, r.excval is None)
+            elif r.kind == "return":
+                k = ("return", base_type(r.val.ty) if r.val is not None else None)
+            else:
+                k = ("normal",)
+            if k not in groups:
+                groups[k] = []; order.append(k)
+            groups[k].append(r)
+        out = []
+        for k in order:
+            rs = groups[k]
+            if len(rs) < 2 or k[0] == "keep":
+                out += rs; continue
+            if k[0] == "normal":
+                m = self.merge_states([r.st for r in rs])
+                out += [Res(m)] if m is not None else rs
+            elif k[0] == "return":
+                m = self.merge_states([r.st for r in rs], values=[r.val if r.val is not None else V(NONE, "none") for r in rs])
+                out += [Res(m[0], m[1], "return")] if m is not None else rs
+            else:
+                if rs[0].excval is None:
+                    m = self.merge_states([r.st for r in rs])
+                    out += [Res(m, None, "raise", rs[0].exc)] if m is not None else rs
+                else:
+                    m = self.merge_states([r.st for r in rs], values=[r.excval for r in rs])
+                    out += [Res(m[0], None, "raise", rs[0].exc, m[1])] if m is not None else rs
+        return out
 
     def merge_states(self, sts, values=None):
         """-> merged State, or (State, merged V) when `values` (one V per state) is given"""
@@ -78,7 +105,10 @@ class StmtMixin:
             if all(isinstance(v, V) for v in vals):
                 tys = {v.ty for v in vals}
                 if len({base_type(t) for t in tys if t is not None}) > 1:
-                    return None         # conflicting static types: keep the paths apart
+                    if all(v.t.eq(vals[0].t) for v in vals[1:]):
+                        out.env[nm] = V(vals[0].t, None, vals[0].src)     # same value, narrowed differently on the branches
+                        continue
+                    return None         # different values of conflicting static types: keep the paths apart
                 srcs = [v.src for v in vals]
                 out.env[nm] = V(ite([v.t for v in vals]), vals[0].ty if len(tys) == 1 else None,
                                 src=srcs[0] if all(x is srcs[0] for x in srcs) else None)
@@ -752,7 +782,7 @@ class StmtMixin:
             binds["_i"] = V(IntV(idx), "int")
             if it.src is not None:
                 binds["_seq"] = it.src
-            return [(e, self.spec(state, st0, e, binds)) for e in invs]
+            return [(e, self.spec(state, self.entry_state or st0, e, binds)) for e in invs]      # old(): function entry
 
         for e, f in inv_terms(st0, z3.IntVal(0)):
             self.oblige(f"inv-init[{key}]: {e}", "inv-init", f, st0, s.lineno)
@@ -781,7 +811,7 @@ class StmtMixin:
                         view = b.st.copy(); view.trace = b.st.trace[ntrace:]     # effects of this iteration only
                         binds = {k: v for k, v in b.st.env.items() if isinstance(v, V)}
                         self._iter_start = iter_start
-                        self.oblige(f"loop-body[{key}]: {clause_text(e)}", "inv-pres", self.spec(view, st0, clause_text(e), binds), b.st, s.lineno)
+                        self.oblige(f"loop-body[{key}]: {clause_text(e)}", "inv-pres", self.spec(view, self.entry_state or st0, clause_text(e), binds), b.st, s.lineno)
             elif b.kind == "break" and lc.get("no_break"):
                 self.oblige(f"loop-body[{key}]: no iteration is skipped by break", "inv-pres", z3.BoolVal(False), b.st, s.lineno)
                 if it.src is not None and not lc.get("mutates_iterated"):
